@@ -133,6 +133,16 @@ def placemarker_sessions(rng, tier):
                          # the same expression set again: its marks are gone like those of any other expression
                          ("expr", e0), ("cmd", "ZoomIn"), ("cmd", "MoveTo%d" % k), ("cmd", "Read%d" % k), ("cmd", "MoveNext")]
                 out.append(steps)
+    # every way back to an empty history (undo more often than there were moves, undo right after the node was set, undo as
+    # the first command), with a marker set, then another expression: its markers are gone
+    for mode in ("Enhanced", "Simple", "Character"):
+        k = rng.randint(0, 9)
+        e0, e1 = X.math(NAV_EXPRS[0]), X.math(NAV_EXPRS[1 % len(NAV_EXPRS)])
+        for middle in ([("cmd", "ZoomIn"), ("cmd", "MoveNext"), ("cmd", "SetPlacemarker%d" % k)] + [("cmd", "MoveLastLocation")] * 4,
+                       [("setnode", 0.5, 0), ("cmd", "SetPlacemarker%d" % k), ("cmd", "MoveLastLocation"), ("cmd", "MoveLastLocation")],
+                       [("cmd", "MoveLastLocation"), ("cmd", "ZoomIn"), ("cmd", "SetPlacemarker%d" % k), ("cmd", "MoveLastLocation"), ("cmd", "MoveLastLocation")]):
+            out.append([("pref", "NavMode", mode), ("expr", e0)] + middle + [("expr", e1), ("cmd", "MoveTo%d" % k), ("cmd", "Read%d" % k), ("cmd", "MoveNext"),
+                                                                          ("expr", e0), ("cmd", "Describe%d" % k), ("cmd", "MoveTo%d" % k)])
     return out
 
 
